@@ -183,12 +183,25 @@ def check(casefile, scratch, coqdir, limit=40):
     lines = [l.rstrip("\n") for l in open(casefile) if l.strip()]
     step = max(1, len(lines) // limit)
     lines = lines[::step][:limit]
-    docs, cases = {}, []
+    docs, cases, pcases, rcases = {}, [], [], []
     for l in lines:
         evs, cmd, ans = l.split("\t")
+        c = sx_parse(cmd)
+        if c[0] == "render":
+            # (render mode expr): the canonical text of an AST, or none
+            want = "None" if ans.startswith("E") else "(Some %s)" % ganswer(ans)[len("(Ok (VStr "):-2]
+            rcases.append("(%s, %s, %s)" % (c[1], gexpr(c[2]), want))
+            continue
         if evs not in docs:
             docs[evs] = "doc%d" % len(docs)
-        c = sx_parse(cmd)
+        if c[0] == "pq":
+            # (pq id root ns vars funs asis text): the model parser on the text, then the evaluator
+            en = "(Env %s %s %s %s %s false)" % (docs[evs], gpath(c[2]),
+                                            glist(["(%s, %s)" % (gstr(x[1]), gstr(x[2])) for x in c[3]]),
+                                            glist(["(%s, %s)" % (gq(x[1], x[2]), gvalue(x[3])) for x in c[4]]),
+                                            glist(["(%s, %s)" % (gq(x[1], x[2]), gufun(x[3])) for x in c[5]]))
+            pcases.append("(%s, %s, %s)" % (en, gstr(c[7]), ganswer("E" if ans.startswith("E") else ans)))
+            continue
         assert c[0] == "q"
         en = "(Env %s %s %s %s %s false)" % (docs[evs], gpath(c[2]),
                                         glist(["(%s, %s)" % (gstr(x[1]), gstr(x[2])) for x in c[3]]),
@@ -202,9 +215,24 @@ def check(casefile, scratch, coqdir, limit=40):
         for evs, name in docs.items():
             f.write("Definition %s : anode := build %s.\n" % (name, glist([gevent(e) for e in sx_parse(evs)])))
         f.write("Definition cases : list (env * expr * res value) :=\n %s.\n" % glist(cases).replace("; (Env", ";\n (Env"))
-        f.write("Definition M := Eval vm_compute in mismatches 0 cases.\nPrint M.\n")
+        if pcases or rcases:
+            f.write("From XV Require Import Syn.Parse Syn.Render Syn.LexThm.\n")
+            f.write("Definition pcases : list (env * str * res value) :=\n %s.\n" % glist(pcases).replace("; (Env", ";\n (Env"))
+            f.write("Definition rcases : list (nat * expr * option str) :=\n %s.\n" % glist(rcases))
+            f.write("Definition run_text (en : env) (t : str) : res value := match parse_string false t with Some e => exec en e | None => Err end.\n")
+            f.write("Definition pbad := filter (fun c => match c with (en, t, want) => negb (res_eqb (run_text en t) want) end) pcases.\n")
+            f.write("Definition ostr_eqb (a b : option str) := match a, b with Some x, Some y => str_eqb x y | None, None => true | _, _ => false end.\n")
+            f.write("Definition rbad := filter (fun c => match c with (m, e, want) => negb (ostr_eqb (canonical_text m e) want) end) rcases.\n")
+            f.write("Definition M := Eval vm_compute in (mismatches 0 cases, length pbad, length rbad).\nPrint M.\n")
+        else:
+            f.write("Definition M := Eval vm_compute in mismatches 0 cases.\nPrint M.\n")
     p = subprocess.run("timeout 900 coqc -R %s XV %s" % (coqdir, src), shell=True, cwd=scratch, stdout=subprocess.PIPE, stderr=subprocess.STDOUT, text=True)
     out = p.stdout
-    ok = p.returncode == 0 and re.search(r"M\s*=\s*\[\s*\]", out.replace("\n", " ")) is not None
-    return {"summary": "%d model answers of the extracted OCaml program re-evaluated by vm_compute in coqc: %s" % (len(cases), "all equal" if ok else "DIFFERENCES"),
+    flat = out.replace("\n", " ")
+    if pcases or rcases:
+        ok = p.returncode == 0 and re.search(r"M\s*=\s*\(\[\s*\],\s*0,\s*0\)", flat) is not None
+    else:
+        ok = p.returncode == 0 and re.search(r"M\s*=\s*\[\s*\]", flat) is not None
+    ncases = len(cases) + len(pcases) + len(rcases)
+    return {"summary": "%d model answers of the extracted OCaml program (%d evaluations, %d parse-and-evaluate, %d canonical renderings) re-evaluated by vm_compute in coqc: %s" % (ncases, len(cases), len(pcases), len(rcases), "all equal" if ok else "DIFFERENCES"),
             "bad": "" if ok else "extracted model and vm_compute disagree (or cases.v failed): " + out[-1500:]}
